@@ -44,6 +44,8 @@ FORWARDERS = {'pow_': '_pow_', 'gt_': '_gt_', 'ge_': '_ge_', 'lt_': '_lt_', 'le_
 
 def build(ctx):
     m = ctx.mod('_pandas')
+    # replays are fixed native batteries per obligation family (the counterexamples are interpretations of uninterpreted pandas operations)
+    ctx.default_meta = dict(replay_without_model=True)
     mr = ctx.mod('_reducer')
     Av, Bv, J, Mth, C, EXC = [Const(n, PV) for n in ('A', 'B', 'JOIN', 'METHOD', 'COLUMNS', 'EXC')]
     bf = base_facts
